@@ -269,6 +269,10 @@ def run(ctx):
         for why, desc, which in bad:
             ctx.violation(f"C12|{why[0]}|{which}|{job[0]}", f"{job[0]} cfg {job[1]} log {job[2]} wiring {desc}: {why[1]}",
                           {"mode": "combo", "combo": list(job[:3])})
+    for c in combos[ctx.seed % len(combos):][:1]:
+        spa_ = fakes.FakeSpa().load(*c)
+        ws_ = wirings(spa_, not ctx.quick)
+        ctx.sample({"combination_case": {"combination": list(c), "wirings": len(ws_), "examples": [w[0] for w in ws_[1:400:57]]}})
     ctx.set("combinations", len(combos))
     ctx.set("combination_notes", notes)
     ctx.log(f"{len(combos)} combinations: {evals} facade constructions judged; {notes}")
